@@ -26,7 +26,12 @@ def _mk(ctx, backlog, d):
     bus = ctx.bus('A')
 
     async def hP(h, ev):
-        await h.sleep(d)
+        try:
+            await h.sleep(d)
+        finally:
+            if ctx.cfg.get('slow_to_die'):
+                # cleanup that itself takes (a lot of) time when the handler is cancelled
+                await asyncio.sleep(3)
         return 'p'
     ctx.on(bus, P, 'hP', hP)
     ctx.on(bus, P, 'hP2', ret='p2')      # a second handler of the in-flight event: must not start after stop() returned
@@ -112,7 +117,10 @@ def t_cancel(ctx):
         k = ctx.int('k', 1, ctx.cfg.get('kmax', 40))
 
         def hook(loop):
-            if 'cancelled' not in st and k == loop.n_steps:
+            if ctx.cfg.get('warm'):
+                if 'cancelled' not in st and 'arm' in st and k == loop.n_steps - st['arm']:
+                    cancel_all(loop)
+            elif 'cancelled' not in st and k == loop.n_steps:
                 cancel_all(loop)
         ctx.step_hook = hook
     else:
@@ -133,6 +141,15 @@ def t_cancel(ctx):
 
     async def user_main():
         m = ctx.main
+        if ctx.cfg.get('warm'):
+            # the bus is already running and idle; the last thing main() does is dispatch
+            m.dispatch(bus, ctx.ev(L, 'Lw', event_timeout=30.0))
+            await bus.wait_until_idle()
+            await asyncio.sleep(Exact('1/20'))
+            st['arm'] = ctx.loop.n_steps
+            m.dispatch(bus, ctx.ev(P, 'P1', event_timeout=None))
+            await asyncio.sleep(10)
+            return
         m.dispatch(bus, ctx.ev(P, 'P1', event_timeout=30.0))
         m.dispatch(bus, ctx.ev(L, 'L0', event_timeout=30.0))
         if mode == 'time':
@@ -180,6 +197,8 @@ def jobs(tier):
     out.append(Job('C16', 's1.stop', t_stop, dict(mode='step', timeout=None, backlog=1, kmax=40 if tier == 'quick' else 80), max_paths=4000))
     out.append(Job('C16', 's1.cancel', t_cancel, dict(mode='time'), witnesses=('cancel inside queue polling',)))
     out.append(Job('C16', 's1.cancel', t_cancel, dict(mode='step', kmax=40 if tier == 'quick' else 80), max_paths=4000))
+    out.append(Job('C16', 's1.cancel', t_cancel, dict(mode='step', warm=True, kmax=25), max_paths=4000))
+    out.append(Job('C16', 's1.stop', t_stop, dict(mode='time', timeout=None, backlog=1, slow_to_die=True), witnesses=('stop mid-handler',)))
     if tier == 'thorough':
         out.append(Job('C16', 's1.stop', t_stop, dict(mode='time', timeout='1/2', backlog=2, clear=True)))
         out.append(Job('C16', 's1.stop', t_stop, dict(mode='step', timeout='1/2', backlog=1, kmax=80), max_paths=6000))
